@@ -82,7 +82,9 @@ DLayout == /\ IsEvent("dlayout")
 DDerives == /\ IsEvent("dderives")
             /\ LET e == Rec[l]
                    n == Len(E.variants)
-                   want == [i \in 1..n |-> Convert(E.dstyle, E.variants[i].id)] IN
+                   \* a variant-level #[strum_discriminants(strum(serialize = ".."))] is passed through and names the variant
+                   want == [i \in 1..n |-> IF E.variants[i].dser # <<>> THEN E.variants[i].dser[1]
+                                                                       ELSE Convert(E.dstyle, E.variants[i].id)] IN
                Require(e.def = E.id /\ e.iter = [i \in 1..n |-> i] /\ e.names = want /\ e.parsed = [i \in 1..n |-> i] /\ e.count = n,
                        l, "derives requested through strum_discriminants",
                        [def |-> E.id, iter |-> e.iter, names |-> e.names, parsed |-> e.parsed, count |-> e.count, expected_names |-> want])
